@@ -139,7 +139,7 @@ class World(object):
         self._clean = {}
         fnames = self.opts.get("filenames") or []        # run order need not be the lexicographic order of the paths
         self.rendered = [shapes.render_feature(s, i, markers=bool(self.opts.get("select")),
-                                               ptags=self.opts.get("ptags", ()),
+                                               ptags=self.opts.get("ptags", ()), tag_lines=bool(self.opts.get("tag_lines")),
                                                filename=fnames[i] if i < len(fnames) else None)
                          for i, s in enumerate(feature_shapes)]
         self._build(config_args)
